@@ -124,7 +124,7 @@ def _child(task):
         mode = Mode(mode_d.get("known", ()), mode_d.get("confirm"))
         r = core.explore(_body(mod, inst["fn"], inst["params"], mode), max_paths=caps.get("max_paths", 200000),
                          wall_cap=caps.get("wall_cap", max(hard - 60, 60)),  # normally explore() itself stops between two paths
-                         crosscheck=int(task[4]) if len(task) > 4 else 0)
+                         crosscheck=int(task[4]) if len(task) > 4 else 0, fresh_final=inst["fn"] in getattr(mod, "FRESH_FINAL", ()))
     except _TaskTimeout:
         core.CTX = None
         r = dict(result="inconclusive", why="task wall-clock safety net (%d s) hit" % hard)
@@ -272,7 +272,8 @@ def main(argv=None):
         insts = [i for i in insts if a.only in i["key"]]
     known = load_known(prop)
     known_ids = [k["id"] for k in known]
-    caps = getattr(mod, "CAPS", {}).get(a.tier, {})
+    # per-task wall cap: 900 s in the quick tier, one hour in the thorough tier (a thorough instance measured at 220 s alone took 840 s under load)
+    caps = dict({"task_wall_cap": 900 if a.tier == "quick" else 3600}, **getattr(mod, "CAPS", {}).get(a.tier, {}))
     tasks = [(prop, i, {"known": known_ids, "confirm": None}, caps) for i in insts]
     for k in known:
         for i in insts:
